@@ -30,7 +30,17 @@ open LinVerif.VersionSet LinVerif.TableCache LinVerif.Lemmas.C02
 
 /-- the model variant the current source selects -/
 def codeCfg (threshold : Nat) (rollupOn : Bool) : Cfg :=
-  { recheck := Generated.C02.removeVersionRechecksRef, threshold := threshold, rollupOn := rollupOn }
+  { recheck := Generated.C02.removeVersionRechecksRef, cloneLocked := Generated.C02.commitCloneUnderLock,
+    threshold := threshold, rollupOn := rollupOn }
+
+/-- the current source re-checks the refcount in `removeVersion` (fix b108b0f) -/
+theorem source_rechecks : Generated.C02.removeVersionRechecksRef = true := rfl
+/-- the current source takes the commit's snapshot and clones inside the version-set mutex -/
+theorem source_clone_locked : Generated.C02.commitCloneUnderLock = true := rfl
+theorem tie_commitOutsideLock : Generated.C02.commitOutsideLock = [] := rfl
+theorem tie_commitInsideLock : Generated.C02.commitInsideLock =
+    ["vs.persistEditLogs", "familyVersion.GetSnapshot", "snapshot.GetCurrent().Clone", "editLog.apply",
+     "familyVersion.appendVersion"] := rfl
 
 theorem tie_release : Generated.C02.releaseSteps = Code.release := rfl
 theorem tie_retain : Generated.C02.retainCalls = Code.retain := rfl
@@ -68,26 +78,33 @@ theorem reachable_run {cfg : Cfg} {v0 f0 : Nat} {acts : List Act} {s s' : St}
     next => cases hr
 
 /-- `Safe` holds in every state of every schedule (variant with the re-check). -/
-theorem safe_invariant {cfg : Cfg} {v0 f0 : Nat} {s : St} (hr : cfg.recheck = true)
-    (h : Reachable cfg v0 f0 s) : Safe s := safe_reachable hr h
+theorem safe_invariant {cfg : Cfg} {v0 f0 : Nat} {s : St} (hr : cfg.recheck = true) (hcl : cfg.cloneLocked = true)
+    (h : Reachable cfg v0 f0 s) : Safe s := safe_reachable hr hcl h
 
 /-- if the current source re-checks, every schedule of the code's own model variant is safe -/
 theorem code_safe {t : Nat} {ro : Bool} {v0 f0 : Nat} {s : St}
-    (hfact : Generated.C02.removeVersionRechecksRef = true) (h : Reachable (codeCfg t ro) v0 f0 s) : Safe s :=
-  safe_reachable (cfg := codeCfg t ro) hfact h
+    (hfact : Generated.C02.removeVersionRechecksRef = true) (hfact2 : Generated.C02.commitCloneUnderLock = true)
+    (h : Reachable (codeCfg t ro) v0 f0 s) : Safe s :=
+  safe_reachable (cfg := codeCfg t ro) hfact hfact2 h
+
+/-- UNCONDITIONAL for the current source: every schedule of the model variant selected by the
+regenerated facts is safe (any compaction threshold, rollup on or off, any first ids). -/
+theorem safe_current_source {t : Nat} {ro : Bool} {v0 f0 : Nat} {s : St}
+    (h : Reachable (codeCfg t ro) v0 f0 s) : Safe s :=
+  code_safe source_rechecks source_clone_locked h
 
 /-- `version.ref` = number of open snapshots on the version (the current one gets no extra count) -/
-theorem ref_counts_open_snapshots {cfg : Cfg} {v0 f0 : Nat} {s : St} (hr : cfg.recheck = true)
+theorem ref_counts_open_snapshots {cfg : Cfg} {v0 f0 : Nat} {s : St} (hr : cfg.recheck = true) (hcl : cfg.cloneLocked = true)
     (h : Reachable cfg v0 f0 s) (v : Nat) : s.ref v = (cntOpen s.snap v s.nSnap : Int) :=
-  (safe_reachable hr h).ref_count v
+  (safe_reachable hr hcl h).ref_count v
 
 /-- every open snapshot: version registered, all its tables in the directory, retained readers mapped -/
-theorem open_snapshot_protected {cfg : Cfg} {v0 f0 : Nat} {s : St} (hr : cfg.recheck = true)
+theorem open_snapshot_protected {cfg : Cfg} {v0 f0 : Nat} {s : St} (hr : cfg.recheck = true) (hcl : cfg.cloneLocked = true)
     (h : Reachable cfg v0 f0 s) (i : Nat) (hi : i < s.nSnap) (ho : (s.snap i).st = .opened) :
     (s.snap i).ver ∈ s.active ∧
     (∀ f ∈ (s.ver (s.snap i).ver).nos, f ∈ s.disk) ∧
     (∀ f ∈ (s.snap i).held, (s.cref f).isSome = true) := by
-  have hs := safe_reachable hr h
+  have hs := safe_reachable hr hcl h
   have hact := hs.open_active i hi ho
   refine ⟨hact, hs.files_on_disk _ hact, ?_⟩
   intro f hf
@@ -98,13 +115,13 @@ theorem open_snapshot_protected {cfg : Cfg} {v0 f0 : Nat} {s : St} (hr : cfg.rec
 unfinished writer (pending output already created), by a pending rollup — is in the directory,
 and every reader retained by an open snapshot is mapped. (A step that deleted or unmapped one
 would produce a reachable state violating this.) -/
-theorem no_needed_file_deleted {cfg : Cfg} {v0 f0 : Nat} {s : St} (hr : cfg.recheck = true)
+theorem no_needed_file_deleted {cfg : Cfg} {v0 f0 : Nat} {s : St} (hr : cfg.recheck = true) (hcl : cfg.cloneLocked = true)
     (h : Reachable cfg v0 f0 s) :
     (∀ i, i < s.nSnap → (s.snap i).st = .opened → ∀ f ∈ (s.ver (s.snap i).ver).nos, f ∈ s.disk) ∧
     (∀ j, j < s.nJob → outOnDisk (s.job j).pc = true → ∀ f ∈ outNo (s.job j), f ∈ s.disk ∧ f ∈ s.pending) ∧
     (∀ f ∈ (s.ver s.cur).rollup, f ∈ s.disk) ∧
     (∀ i, i < s.nSnap → (s.snap i).st = .opened → ∀ f ∈ (s.snap i).held, s.cref f ≠ none) := by
-  have hs := safe_reachable hr h
+  have hs := safe_reachable hr hcl h
   refine ⟨fun i hi ho => hs.files_on_disk _ (hs.open_active i hi ho), ?_, hs.rollup_on_disk, hs.held_mapped⟩
   intro j hj hp f hf
   have hb := hs.jobs j hj
@@ -114,36 +131,36 @@ theorem no_needed_file_deleted {cfg : Cfg} {v0 f0 : Nat} {s : St} (hr : cfg.rech
 
 /-- The only step that removes a table from the directory (`deleteSST` of deleteObsoleteFiles)
 removes a table no open snapshot lists, that is no pending output and that no rollup needs. -/
-theorem delete_only_unneeded {cfg : Cfg} {v0 f0 : Nat} {s : St} (hr : cfg.recheck = true)
+theorem delete_only_unneeded {cfg : Cfg} {v0 f0 : Nat} {s : St} (hr : cfg.recheck = true) (hcl : cfg.cloneLocked = true)
     (h : Reachable cfg v0 f0 s) (j : Nat) (hj : j < s.nJob) (hpc : (s.job j).pc = .doEvicted)
     (f : Nat) (rest : List Nat) (htodo : (s.job j).todoDel = f :: rest) :
     jstep cfg s j = some (doRemove s j f rest) ∧
     (∀ i, i < s.nSnap → (s.snap i).st = .opened → f ∉ (s.ver (s.snap i).ver).nos) ∧
     f ∉ s.pending ∧ f ∉ (s.ver s.cur).rollup := by
-  have hs := safe_reachable hr h
+  have hs := safe_reachable hr hcl h
   have hd := (hs.jobs j hj).deleting (by rw [hpc]; rfl) f (by simp [htodo])
   refine ⟨by simp [jstep, hj, hpc, htodo], ?_, hd.1.2.1, hd.2⟩
   intro i hi ho
   exact hd.1.2.2 _ (hs.open_active i hi ho)
 
 /-- `cache.Evict` in deleteObsoleteFiles closes only readers no open snapshot retains. -/
-theorem evict_only_unneeded {cfg : Cfg} {v0 f0 : Nat} {s : St} (hr : cfg.recheck = true)
+theorem evict_only_unneeded {cfg : Cfg} {v0 f0 : Nat} {s : St} (hr : cfg.recheck = true) (hcl : cfg.cloneLocked = true)
     (h : Reachable cfg v0 f0 s) (j : Nat) (hj : j < s.nJob)
     (hpc : (s.job j).pc = .doRolled ∨ (s.job j).pc = .doRemoved)
     (f : Nat) (rest : List Nat) (htodo : (s.job j).todoDel = f :: rest) :
     jstep cfg s j = some (doEvict s j f) ∧
     (∀ i, i < s.nSnap → (s.snap i).st = .opened → f ∉ (s.snap i).held) := by
-  have hs := safe_reachable hr h
+  have hs := safe_reachable hr hcl h
   have hd := (hs.jobs j hj).deleting (by rcases hpc with hpc | hpc <;> rw [hpc] <;> rfl) f (by simp [htodo])
   refine ⟨by rcases hpc with hpc | hpc <;> simp [jstep, hj, hpc, htodo], ?_⟩
   intro i hi ho hmem
   exact hd.1.2.2 _ (hs.open_active i hi ho) (hs.held_files i hi f hmem)
 
 /-- `storeCache.Cleanup` closes only readers nobody retains. -/
-theorem cleanup_only_unreferenced {cfg : Cfg} {v0 f0 : Nat} {s s' : St} (hr : cfg.recheck = true)
+theorem cleanup_only_unreferenced {cfg : Cfg} {v0 f0 : Nat} {s s' : St} (hr : cfg.recheck = true) (hcl : cfg.cloneLocked = true)
     (h : Reachable cfg v0 f0 s) (fs : List Nat) (hst : step cfg s (.cleanup fs) = some s') :
     ∀ f ∈ fs, ∀ i, i < s.nSnap → f ∉ (s.snap i).held := by
-  have hs := safe_reachable hr h
+  have hs := safe_reachable hr hcl h
   intro f hf i hi hmem
   simp only [step] at hst
   split at hst
@@ -160,13 +177,13 @@ theorem cleanup_only_unreferenced {cfg : Cfg} {v0 f0 : Nat} {s s' : St} (hr : cf
 content its version had when the snapshot was taken (= at any earlier state `s` in which it was
 already open), whatever flushes, compactions, rollup commits, file deletions and cache cleanups
 ran in between. -/
-theorem snapshot_stable {cfg : Cfg} {v0 f0 : Nat} {s s' : St} {acts : List Act} (hr : cfg.recheck = true)
+theorem snapshot_stable {cfg : Cfg} {v0 f0 : Nat} {s s' : St} {acts : List Act} (hr : cfg.recheck = true) (hcl : cfg.cloneLocked = true)
     (h : Reachable cfg v0 f0 s) (hrun : run cfg s acts = some s')
     (i : Nat) (hi : i < s.nSnap) (ho' : (s'.snap i).st = .opened) (k : Nat) :
     readKey s' i k = readKey s i k ∧
     readKey s i k = some (contentOf (s.ver (s.snap i).ver) s.content k) := by
-  have hs := safe_reachable hr h
-  have hs' := safe_reachable hr (reachable_run h hrun)
+  have hs := safe_reachable hr hcl h
+  have hs' := safe_reachable hr hcl (reachable_run h hrun)
   have hf := frame_run hrun
   have ho := (hf.snap_open i hi ho').1
   have hi' : i < s'.nSnap := Nat.lt_of_lt_of_le hi hf.nSnap_le
@@ -174,22 +191,22 @@ theorem snapshot_stable {cfg : Cfg} {v0 f0 : Nat} {s s' : St} {acts : List Act} 
   exact ⟨rfl, rfl⟩
 
 /-- a reader retained at `s` by a snapshot that is still open at `s'` is still mapped at `s'` -/
-theorem held_readers_stay_mapped {cfg : Cfg} {v0 f0 : Nat} {s s' : St} {acts : List Act} (hr : cfg.recheck = true)
+theorem held_readers_stay_mapped {cfg : Cfg} {v0 f0 : Nat} {s s' : St} {acts : List Act} (hr : cfg.recheck = true) (hcl : cfg.cloneLocked = true)
     (h : Reachable cfg v0 f0 s) (hrun : run cfg s acts = some s')
     (i : Nat) (hi : i < s.nSnap) (ho' : (s'.snap i).st = .opened) :
     ∀ f ∈ (s.snap i).held, s'.cref f ≠ none := by
-  have hs' := safe_reachable hr (reachable_run h hrun)
+  have hs' := safe_reachable hr hcl (reachable_run h hrun)
   have hf := frame_run hrun
   intro f hmem
   exact hs'.held_mapped i (Nat.lt_of_lt_of_le hi hf.nSnap_le) ho' f ((hf.snap_open i hi ho').2 f hmem)
 
 /-- the tables of an open snapshot's version stay in the directory for as long as it is open -/
-theorem snapshot_files_stay {cfg : Cfg} {v0 f0 : Nat} {s s' : St} {acts : List Act} (hr : cfg.recheck = true)
+theorem snapshot_files_stay {cfg : Cfg} {v0 f0 : Nat} {s s' : St} {acts : List Act} (hr : cfg.recheck = true) (hcl : cfg.cloneLocked = true)
     (h : Reachable cfg v0 f0 s) (hrun : run cfg s acts = some s')
     (i : Nat) (hi : i < s.nSnap) (ho' : (s'.snap i).st = .opened) :
     ∀ f ∈ (s.ver (s.snap i).ver).nos, f ∈ s'.disk := by
-  have hs := safe_reachable hr h
-  have hs' := safe_reachable hr (reachable_run h hrun)
+  have hs := safe_reachable hr hcl h
+  have hs' := safe_reachable hr hcl (reachable_run h hrun)
   have hf := frame_run hrun
   have hi' : i < s'.nSnap := Nat.lt_of_lt_of_le hi hf.nSnap_le
   intro f hmem
@@ -200,9 +217,9 @@ theorem snapshot_files_stay {cfg : Cfg} {v0 f0 : Nat} {s s' : St} {acts : List A
 /-- The current version is the replay of every edit log installed so far (`hist`, newest first):
 commits are never lost or re-ordered (they are serialised by the version-set mutex and each
 clones the version that is current at its swap). -/
-theorem current_is_replay {cfg : Cfg} {v0 f0 : Nat} {s : St} (hr : cfg.recheck = true)
+theorem current_is_replay {cfg : Cfg} {v0 f0 : Nat} {s : St} (hr : cfg.recheck = true) (hcl : cfg.cloneLocked = true)
     (h : Reachable cfg v0 f0 s) : s.ver s.cur = s.hist.foldr (fun e v => applyEdit v e) {} :=
-  (safe_reachable hr h).history
+  (safe_reachable hr hcl h).history
 
 /-- the swap step of a commit records its edit log -/
 theorem swap_records_commit (s : St) (j : Nat) :
@@ -211,13 +228,13 @@ theorem swap_records_commit (s : St) (j : Nat) :
 /-- A reader that starts after a commit completed (its edit log `e` is in the history when the
 reader takes its snapshot) gets a version that lists every table `e` added, unless a later
 installed edit log (a compaction that consumed it) deleted that table. -/
-theorem later_reader_sees_commit {cfg : Cfg} {v0 f0 : Nat} {s s' : St} (hr : cfg.recheck = true)
+theorem later_reader_sees_commit {cfg : Cfg} {v0 f0 : Nat} {s s' : St} (hr : cfg.recheck = true) (hcl : cfg.cloneLocked = true)
     (h : Reachable cfg v0 f0 s) (hst : step cfg s .acquire = some s')
     (later earlier : List Edit) (e : Edit) (hh : s.hist = later ++ e :: earlier)
     (m : FileMeta) (hm : m ∈ e.adds) (hnd : ∀ e' ∈ later, (m.level, m.no) ∉ e'.dels) :
     (s'.snap s.nSnap).st = .opened ∧ (s'.snap s.nSnap).ver = s.cur ∧
     m ∈ (s'.ver (s'.snap s.nSnap).ver).files := by
-  have hs := safe_reachable hr h
+  have hs := safe_reachable hr hcl h
   simp only [step] at hst
   cases hst
   refine ⟨by simp [snapAcquire], by simp [snapAcquire], ?_⟩
@@ -328,6 +345,51 @@ theorem snapshot_not_stable :
       obtain ⟨⟨⟨⟨a, b⟩, c⟩, d⟩, e⟩ := h1
       refine ⟨s, s', _, reachable_run Reachable.init hr, hr', a, b, c, ?_⟩
       rw [e]; intro hcontra; rw [← hcontra] at d; cases d
+
+/-! #### commits outside the version-set mutex (variant `cloneLocked = false`): lost update -/
+
+/-- snapshot + Clone before `vs.mutex.Lock()` -/
+def unlockedCloneCfg : Cfg := { recheck := true, cloneLocked := false, threshold := 2, rollupOn := false }
+
+/-- two flushes are ready; both clone the same base version; A installs, then B installs its
+clone of the old base: A's completed commit is gone from the current version. -/
+def lostUpdateActs : List Act :=
+  [.spawn .flush [(1, [10])], .spawn .flush [(1, [11])], .jstep 0, .jstep 0, .jstep 1, .jstep 1, .jstep 0, .jstep 1] ++
+  List.replicate 9 (.jstep 0) ++ List.replicate 9 (.jstep 1) ++ [.acquire]
+
+theorem lost_update_outcome :
+    (match run unlockedCloneCfg (St.init 0 2) lostUpdateActs with
+     | some s => decide ((s.job 0).pc = .done) && decide ((s.job 1).pc = .done) &&
+         decide ((s.snap 2).st = .opened) && !((s.ver (s.snap 2).ver).nos.contains 2) &&
+         (s.hist.any (fun e => e.adds.any (fun m => m.no == 2))) && (readKey s 2 1 == some [(3, [11])])
+     | none => false) = true := by decide
+
+/-- `later_reader_sees_commit` fails when commits clone outside the mutex: both flush commits
+completed, the reader starts afterwards, and table 2 (token 10) is not in its version. -/
+theorem later_reader_misses_commit :
+    ∃ s, Reachable unlockedCloneCfg 0 2 s ∧ (s.job 0).pc = .done ∧ (s.snap 2).st = .opened ∧
+      (∃ e ∈ s.hist, ∃ m ∈ e.adds, m.no = 2) ∧ 2 ∉ (s.ver (s.snap 2).ver).nos ∧
+      s.ver s.cur ≠ s.hist.foldr (fun e v => applyEdit v e) {} := by
+  have h := lost_update_outcome
+  cases hr : run unlockedCloneCfg (St.init 0 2) lostUpdateActs with
+  | none => rw [hr] at h; cases h
+  | some s =>
+    rw [hr] at h
+    simp only [Bool.and_eq_true, decide_eq_true_eq, Bool.not_eq_true', List.any_eq_true, beq_iff_eq] at h
+    obtain ⟨⟨⟨⟨⟨h1, _⟩, h3⟩, h4⟩, ⟨e, he, m, hm, hmn⟩⟩, _⟩ := h
+    have hnot : 2 ∉ (s.ver (s.snap 2).ver).nos := by
+      intro hmem; simp [List.contains_eq_mem, hmem] at h4
+    refine ⟨s, reachable_run Reachable.init hr, h1, h3, ⟨e, he, m, hm, hmn⟩, hnot, ?_⟩
+    -- the replay of the history lists table 2, the current version does not
+    have hv : (run unlockedCloneCfg (St.init 0 2) lostUpdateActs).map
+        (fun s => decide ((s.snap 2).ver = s.cur) &&
+          ((s.hist.foldr (fun e v => applyEdit v e) ({} : VData)).nos.contains 2)) = some true := by decide
+    rw [hr] at hv
+    simp only [Option.map_some, Option.some.injEq, Bool.and_eq_true, decide_eq_true_eq] at hv
+    obtain ⟨hcur, hrep⟩ := hv
+    intro heq
+    rw [hcur, heq] at hnot
+    exact hnot (by simpa [List.contains_eq_mem] using hrep)
 
 end Neg
 
